@@ -1,6 +1,6 @@
 (* Props/C16.v - Catalog answers mirror the application's declared schema exactly. *)
 From Coq Require Import List NArith Lia Bool.
-From MM Require Import Lib.Bytes Model.Like Model.Catalog Proofs.LikeProofs Proofs.CatalogProofs Gen.FactsCatalog Gen.FactsConn.
+From MM Require Import Lib.Bytes Model.Like Model.Catalog Proofs.LikeProofs Proofs.CatalogProofs Gen.FactsCatalog Gen.FactsConn Model.Packets Proofs.PacketProofs.
 Import ListNotations.
 Open Scope N_scope.
 
@@ -54,3 +54,10 @@ Example c16_version_is_not_a_prefix_match :
   like [118;101;114;115;105;111;110] [118;101;114;115;105;111;110;95;99] = false /\
   like [118;101;114;37] [118;101;114;115;105;111;110;95;99] = true.
 Proof. vm_compute. split; reflexivity. Qed.
+
+(* COM_FIELD_LIST: every column definition the server sends - with or without a default value - is decoded by a client
+   to the definition that was encoded, followed by the default-value suffix (Model/Packets.v) *)
+Theorem c16_field_list_definition_decodable : forall cd dflt, coldef_wf cd ->
+  dec_coldef (enc_coldef cd (Some dflt)) =
+  Some (cd, match dflt with None => uint_len 0 | Some v => uint_len (len v) ++ str_len v end).
+Proof. exact field_list_coldef_roundtrip. Qed.
